@@ -961,6 +961,13 @@ def class_attr(ex, st, cref: ClassRef, attr, instance):
     if cref.module == "builtins":
         raise U(f"attribute {attr} on builtin class")
     io = st.deref(instance) if instance is not None else None
+    if isinstance(io, Obj) and getattr(io, "closed", False):
+        # a field the contract does not know: it may hold anything (arbitrary abstract value)
+        v = Opaque("Any")
+        io.fields[attr] = v
+        st.notes.append(f"undeclared field {io.cls.split(':')[-1]}.{attr} read as an arbitrary value")
+        yield st, v
+        return
     if isinstance(io, Obj) and io.open_fields is not None:
         sort = io.open_fields.get(attr)
         if sort is not None:
@@ -1129,6 +1136,15 @@ def getitem(ex, st, ref, idx):
     if isinstance(v, (TypeRef, ClassRef)):
         yield st, v  # generic alias  list[int]
         return
+    if isinstance(v, Opaque) and v.kind in ("Any", "PyDict", "PyList"):
+        from .contracts import pure_result
+
+        st2 = st.fork()
+        yield ex.raise_(st2, "KeyError" if v.kind != "PyList" else "IndexError")
+        # the stored content is unknown: reads see an arbitrary value (fresh at every read, since
+        # intervening writes are not tracked)
+        yield st, Opaque("Any")
+        return
     ex.give_up(st, f"subscript of {v!r}")
 
 
@@ -1201,6 +1217,9 @@ def setitem(ex, st, ref, idx, v):
             yield st, None
         except IndexError:
             yield ex.raise_(st, "IndexError")
+    elif isinstance(o, Opaque) and o.kind in ("Any", "PyDict", "PyList"):
+        st.trace.append(("mutate", o))
+        yield st, None
     elif o is None or natural_sort(o) is not None or isinstance(o, tuple):
         yield ex.raise_(st, "TypeError")
     else:
